@@ -117,7 +117,7 @@ impl Lit {
             Some((ss, None)) => if ss.len() == 2 && all_digits(ss) { Ok((ss.parse().unwrap(), 0)) } else { Err("malformed") },
             Some((ss, Some(f))) => {
                 if ss.len() != 2 || !all_digits(ss) || !all_digits(f) { return Err("malformed"); }
-                if f.len() > 9 { return Err("malformed"); }
+                if f.len() > 9 { return Err("fraction-too-long"); }
                 let mut n: i64 = f.parse().unwrap();
                 for _ in f.len()..9 { n *= 10; }
                 Ok((ss.parse().unwrap(), n))
@@ -137,13 +137,14 @@ impl Lit {
                 let (hh, mm): (i128, i128) = match m {
                     None => { if h.len() != 4 { return Want::Refuse("malformed"); } let v: i128 = h.parse().unwrap(); (v / 100, v % 100) }
                     Some(m) => {
-                        if m.len() != 2 || !all_digits(m) || h.len() > 30 { return Want::Refuse("malformed"); }
+                        if m.len() != 2 || !all_digits(m) { return Want::Refuse("malformed"); }
+                        if h.len() > 30 { return Want::Refuse("offset-out-of-range"); }
                         (h.parse().unwrap(), m.parse().unwrap())
                     }
                 };
-                if mm > 59 { return Want::Refuse("malformed"); }
                 let off = hh * 3600 + mm * 60;
                 if off >= 86_400 { return Want::Refuse("offset-out-of-range"); }
+                if mm > 59 { return Want::Refuse("malformed"); }
                 Some(if *neg { -(off as i64) } else { off as i64 })
             }
         };
@@ -356,7 +357,8 @@ fn gen_time(rng: &mut Rng) -> Tm {
     Tm { h, mi, sec }
 }
 fn gen_ymd(rng: &mut Rng) -> (i64, i64, i64) {
-    let y = if rng.chance(1, 2) { *rng.pick(&YEARS) } else { rng.range(1, 9999) };
+    // the property's domain is 0001-9999; a twentieth of the literals lies outside it (BC, five-digit years)
+    let y = if rng.chance(1, 20) { *rng.pick(&[0i64, -1, -43, -400, -4712, 10_000, 12_345, 99_999, 262_142]) } else if rng.chance(1, 2) { *rng.pick(&YEARS) } else { rng.range(1, 9999) };
     let m = match rng.below(5) { 0 => 2, 1 => 12, 2 => 1, _ => rng.range(1, 12) };
     let d = match rng.below(4) { 0 => 1, 1 => month_len(y, m), 2 => (month_len(y, m) - 1).max(1), _ => rng.range(1, month_len(y, m)) };
     (y, m, d)
@@ -366,7 +368,7 @@ fn gen_ymd(rng: &mut Rng) -> (i64, i64, i64) {
 fn gen_valid(rng: &mut Rng, zones: &[Tz]) -> Lit {
     let (y, m, d) = gen_ymd(rng);
     let days = days_from_civil(y, m, d);
-    let dk = match rng.below(12) { 0 | 1 => Dk::Ordinal, 2 => Dk::Ctime, 3 => Dk::Today, _ => Dk::Ymd };
+    let dk = match rng.below(12) { 0 | 1 => Dk::Ordinal, 2 if (0..=9999).contains(&y) => Dk::Ctime, 3 => Dk::Today, _ => Dk::Ymd };
     let mut time = if dk == Dk::Today || rng.chance(3, 4) { Some(gen_time(rng)) } else { None };
     let mut zone = if time.is_some() && dk != Dk::Ctime { gen_zone(rng, zones) } else { Zs::None };
     if let (Zs::Named(_), Some(t)) = (&zone, time.as_mut()) {
@@ -543,7 +545,8 @@ fn canon_date(d: &DateReply, zone: Option<Tz>) -> String {
             // the zone's offsets for this wall-clock time; RFC 3339 shows the offset rounded to minutes
             let days = local.div_euclid(86_400 * NS) as i64;
             let sod = (local.rem_euclid(86_400 * NS) / NS) as i64;
-            let cands: Vec<i64> = match local_in(tz, days, sod.min(86_399)) { Some(Loc::Single(o)) => vec![o], Some(Loc::Ambiguous(a, b)) => vec![a, b], _ => vec![] };
+            // (outside chrono's own date range the zone cannot be asked: take the offset the text shows)
+            let cands: Vec<i64> = match local_in(tz, days, sod.min(86_399)) { Some(Loc::Single(o)) => vec![o], Some(Loc::Ambiguous(a, b)) => vec![a, b], Some(Loc::Gap) => vec![], None => vec![roff] };
             let round = |o: i64| -> i64 { let m = (o.abs() + 30) / 60; o.signum() * m * 60 };
             match cands.iter().find(|o| **o == roff || round(**o) == roff || (**o - roff).abs() < 60) {
                 Some(o) => format!("date {} zone", local - *o as i128 * NS),
@@ -582,12 +585,13 @@ fn fmt_inst(ns: i128, z: &ZoneOut) -> String { match z { ZoneOut::Fixed(o) => fo
 struct Out {
     req: std::io::BufWriter<std::fs::File>, imp: std::io::BufWriter<std::fs::File>, orc: std::io::BufWriter<std::fs::File>,
     total: u64, oracle_checked: u64, nviol: u64, kinds: std::collections::BTreeMap<String, u64>, answers: std::collections::BTreeMap<String, u64>,
-    laws: std::collections::BTreeMap<String, u64>, samples: Vec<String>, distinct: std::collections::HashSet<u64>, model_lines: u64,
+    laws: std::collections::BTreeMap<String, u64>, samples: Vec<String>, distinct: std::collections::HashSet<u64>, model_lines: u64, now: i64,
 }
 impl Out {
     /// one evaluated case: `req` (None = outside the model's input language, oracle only), the
     /// implementation's answer, and the oracle's verdict
     fn case(&mut self, kind: &str, query: &str, req: Option<String>, got: &str, want: Option<(&str, String)>, tz: Option<Tz>) {
+        let now = self.now;
         use std::hash::{Hash, Hasher};
         self.total += 1;
         *self.kinds.entry(kind.to_string()).or_insert(0) += 1;
@@ -598,7 +602,7 @@ impl Out {
         if self.total % 997 == 1 && self.samples.len() < 24 { self.samples.push(format!("{}  =>  {}", query, got)); }
         if let Some(r) = &req { writeln!(self.req, "{}", r).unwrap(); writeln!(self.imp, "{}", got).unwrap(); self.model_lines += 1; }
         let mut viol: Option<(String, String)> = None;
-        if got == "panic" { viol = Some((format!("no-panic:{}", kind), want.as_ref().map(|w| w.1.clone()).unwrap_or_else(|| "an answer or an error".into()))); }
+        if got == "panic" { viol = Some((want.as_ref().map(|w| w.0.to_string()).unwrap_or_else(|| format!("no-panic:{}", kind)), want.as_ref().map(|w| w.1.clone()).unwrap_or_else(|| "an answer or an error".into()))); }
         else if got.starts_with("date-inconsistent") { viol = Some(("reply-consistent".into(), "year/month/day/hour/minute/second/nanosecond fields, rfc3339 text and zone agree".into())); }
         else if let Some((law, w)) = &want {
             self.oracle_checked += 1;
@@ -612,7 +616,7 @@ impl Out {
             self.nviol += 1;
             *self.laws.entry(law.clone()).or_insert(0) += 1;
             if self.laws[&law] <= 40 {
-                writeln!(self.orc, "{}", json!({"law": law, "query": query, "want": w, "got": got, "req": req, "tz": tz.map(|t| t.name().to_string())})).unwrap();
+                writeln!(self.orc, "{}", json!({"law": law, "query": query, "want": w, "got": got, "req": req, "tz": tz.map(|t| t.name().to_string()), "now": now, "kind": kind})).unwrap();
             }
         }
     }
@@ -641,7 +645,7 @@ impl<'a> Gen<'a> {
         let want = match l.want(self.now) {
             Want::Inst(ns, z) => Some(("pattern-denotes", fmt_inst(ns, &z))),
             Want::Refuse(why) => Some((match why { "impossible-date" => "impossible-date-refused", "impossible-time" => "impossible-time-refused", "offset-out-of-range" => "literal-offset-refused",
-                "unusable-date-fields" => "unusable-date-fields-refused", "nonexistent-local-time" => "nonexistent-local-time-refused", _ => "malformed-literal-refused" }, "err".to_string())),
+                "unusable-date-fields" => "unusable-date-fields-refused", "nonexistent-local-time" => "nonexistent-local-time-refused", "fraction-too-long" => "fraction-digits-refused", _ => "malformed-literal-refused" }, "err".to_string())),
             Want::NoExpect => None,
         };
         let req = l.lean(self.now).map(|t| format!("lit {}", t));
@@ -726,6 +730,7 @@ impl<'a> Gen<'a> {
 
     fn set_now(&mut self, secs: i64) {
         self.now = secs;
+        self.out.now = secs;
         self.ctx.set_time(chrono::Local.timestamp_opt(secs, 0).unwrap());
         writeln!(self.out.req, "now {}", secs).unwrap();
         writeln!(self.out.imp, "ok").unwrap();
@@ -775,7 +780,7 @@ fn main() {
     let zones: Vec<Tz> = ZONES.iter().filter_map(|z| Tz::from_str(z).ok()).filter(|z| lexable_zone(z.name())).collect();
     let all_zones: Vec<Tz> = chrono_tz::TZ_VARIANTS.iter().cloned().filter(|z| z.name() != "GB").collect();
     let out = Out { req: o.writer("req.txt"), imp: o.writer("impl.txt"), orc: o.writer("oracle.jsonl"), total: 0, oracle_checked: 0, nviol: 0, kinds: Default::default(), answers: Default::default(),
-        laws: Default::default(), samples: vec![], distinct: Default::default(), model_lines: 0 };
+        laws: Default::default(), samples: vec![], distinct: Default::default(), model_lines: 0, now: NOW };
     let mut g = Gen { ctx, out, rng: Rng::new(o.seed), units, zones, now: NOW, _p: std::marker::PhantomData };
 
     // ---- line 1: which behaviour the implementation shows at the model's switch points
@@ -787,7 +792,7 @@ fn main() {
     // ---- API level: to_duration / from_duration
     {
         let mut ks: Vec<BigInt> = [0i64, 1, -1, 999, 1000, 999_999, 1_000_000, 1_000_001, -1_500_001, 500_000, 999_999_999, 1_000_000_000, 86_400_000_000_000].iter().map(|k| BigInt::from(*k)).collect();
-        let n = if o.thorough { 20_000 } else { 1500 };
+        let n = if o.thorough { 50_000 } else { 1500 };
         for _ in 0..n { let k = gen_ns(&mut g.rng); ks.push(if g.rng.chance(1, 2) { -k } else { k }); }
         for k in ks {
             let t = R::new(k.clone(), BigInt::from(NS));
@@ -863,7 +868,7 @@ fn main() {
     g.diff_case(&corpus[18], &corpus[20]);
 
     // ---- every pattern x boundary dates, valid and invalid
-    let (n_lit, n_arith, n_diff, n_conv, n_bad) = if o.thorough { (60_000, 60_000, 40_000, 30_000, 20_000) } else { (3000, 2500, 1500, 1200, 1200) };
+    let (n_lit, n_arith, n_diff, n_conv, n_bad) = if o.thorough { (150_000, 150_000, 100_000, 75_000, 50_000) } else { (3000, 2500, 1500, 1200, 1200) };
     for _ in 0..n_lit { let zs = g.zones.clone(); let l = gen_valid(&mut g.rng, &zs); g.lit_case("literal", &l); }
     for _ in 0..n_bad { let zs = g.zones.clone(); let l = gen_invalid(&mut g.rng, &zs); g.lit_case("literal-invalid", &l); }
     // every month end of leap and common years, every pattern family: exhaustive calendar sweep
@@ -924,7 +929,7 @@ fn main() {
     g.set_now(NOW);
 
     // ---- malformed glue: arbitrary junk between # # must give an answer or an error
-    let n_junk = if o.thorough { 30_000 } else { 2000 };
+    let n_junk = if o.thorough { 75_000 } else { 2000 };
     let alphabet = ["2020", "01", "1", "12", "00", "60", "99", "-", "-", ":", ":", " ", " ", "+", ".", "T", "W", "am", "pm", "bc", "Jan", "Mon", "UTC", "Europe/London", "0000000000", "99999999999", ",", "#"];
     for _ in 0..n_junk {
         let n = 1 + g.rng.below(10);
